@@ -522,3 +522,90 @@ def resize_program(case, ctx):
     ctx.tag("unit:" + unit, "grid:" + case["grid"], f"steps:{min(len(ops), 10)}", "refused" if refused else None,
             *{"op:" + o for o in ops})
     ctx.nontrivial_if(len(set(o.replace("_bad", "") for o in ops)) >= 2)
+
+
+# --- whole-number grids held in integer arrays -------------------------------------------------------------------------
+
+@hyp("C15", "integer_grids", lambda tier: st.fixed_dictionaries(
+        {"dtype": st.sampled_from(["uint8", "uint16", "uint16", "uint32", "uint64", "int16", "int32", "int64"]),
+         "start": st.integers(1, 60), "steps": st.lists(st.integers(1, 9), min_size=2, max_size=10),
+         "ops": st.lists(st.tuples(st.sampled_from(["append_interleaved", "append_after", "append_before", "resample_descending",
+                                                     "resample_valid", "resample_unsorted", "crop", "pad"]),
+                                   st.integers(0, 1000), st.booleans()), min_size=1, max_size=5),
+         "seed": st.integers(0, 2**31 - 1)}),
+     "spectra whose whole-number wavelength grid (and the grids handed to append / resample) are unsigned or signed "
+     "integer arrays: after every crop / pad / append / resample - accepted or refused - the grid read as Python "
+     "numbers is strictly increasing, there is one value per wavelength and an accepted append kept every sample",
+     examples=(300, 1200))
+def integer_grids(case, ctx):
+    dt = np.dtype(case["dtype"])
+    top = int(np.iinfo(dt).max)
+    w = np.cumsum([case["start"]] + case["steps"])
+    w = w[w <= top - 40] if top < 1000 else w
+    if len(w) < 3:
+        raise Skip("grid_does_not_fit_the_type")
+    rng = np.random.default_rng(case["seed"])
+    s = Spectrum(w.astype(dt), rng.uniform(0.1, 2.0, size=len(w)), waveunit="nm")
+    ctx.tag("dtype:" + case["dtype"], "unsigned" if dt.kind == "u" else "signed", *sorted({"op:" + o[0] for o in case["ops"]}))
+    ctx.nontrivial_if(any(o[0] in ("append_interleaved", "resample_descending", "resample_unsorted") for o in case["ops"]))
+
+    def formed(what):
+        ww = [float(x) for x in np.asarray(s.wave).tolist()]
+        vv = np.asarray(s.value)
+        if np.asarray(s.wave).ndim != 1 or vv.ndim != 1 or len(ww) != len(vv):
+            raise Violation("C15.intgrid.lengths", f"after {what}: {np.asarray(s.wave).shape} wavelengths, {vv.shape} values")
+        bad = [(a, b) for a, b in zip(ww, ww[1:]) if not b > a]
+        if bad:
+            raise Violation("C15.intgrid.increasing", f"after {what} on a {case['dtype']} grid: wavelength grid is not strictly "
+                                                      f"increasing ({bad[0][0]:g} followed by {bad[0][1]:g}); grid = {ww[:12]}")
+
+    done = []
+    for name, k, flag in case["ops"]:
+        cur_w = np.asarray(s.wave).astype(np.int64)
+        cur_v = np.asarray(s.value, dtype=float).copy()
+        n = len(cur_w)
+        if n < 2:
+            break
+        expect = None
+        try:
+            with np.errstate(all="ignore"):
+                if name.startswith("append"):
+                    if name == "append_interleaved":
+                        # element by element greater than the current grid, but starting inside it
+                        ow = cur_w + max(1, int(cur_w[1] - cur_w[0]) // 2 if cur_w[1] - cur_w[0] > 1 else 1)
+                        if ow[0] >= cur_w[-1]:
+                            ow = cur_w + 1
+                    elif name == "append_after":
+                        ow = cur_w[-1] + 1 + np.arange(n) * (1 + k % 4)
+                        expect = "appended"
+                    else:
+                        ow = np.maximum(cur_w - (1 + k % 3), 0)
+                    if ow.max() > top:
+                        continue
+                    other = Spectrum(ow.astype(dt), rng.uniform(0.1, 2.0, size=n), waveunit="nm")
+                    if flag:
+                        r = s.append(other, copy=True)
+                        if r is not None:
+                            s = r
+                    else:
+                        s.append(other)
+                elif name.startswith("resample"):
+                    lo, hi = int(cur_w[0]), int(cur_w[-1])
+                    g = np.unique(np.linspace(lo, hi, 2 + k % 6).astype(np.int64))
+                    if name == "resample_descending":
+                        g = g[::-1]
+                    elif name == "resample_unsorted" and len(g) >= 3:
+                        g = np.concatenate([g[1:2], g[:1], g[2:]])
+                    s.resample(g.astype(dt), waveunit="nm")
+                elif name == "crop":
+                    s.crop(float(cur_w[min(1, n - 1)]), float(cur_w[-1]))
+                else:
+                    s.pad(1 + k % 3)
+        except Exception:  # noqa: BLE001 - a refusal is fine; the spectrum must still be well-formed
+            ctx.tag("refused:" + name)
+            expect = None
+        done.append(name)
+        formed(f"[{' '.join(done)}]")
+        if expect == "appended" and len(np.asarray(s.wave)) == 2 * n:
+            if not (np.array_equal(np.asarray(s.wave)[:n].astype(np.int64), cur_w) and np.array_equal(np.asarray(s.value, dtype=float)[:n], cur_v)):
+                raise Violation("C15.intgrid.retained", f"append after [{' '.join(done)}] altered the samples it kept")
